@@ -17,8 +17,9 @@ ASSUMPTIONS = [
     "was accepted.  The cycle-level contract needs neither",
     "tx_ready while tx_valid = 0 is unspecified (no byte is on offer); ulpi_out_req between a withdrawn request and the next "
     "request/packet is unspecified (the code keeps it latched -- this is the root of the C24 deadlock and is reported there)",
-    "pin-level R obligations: control inputs constant (register-write traffic only from reset), explicit input alphabet "
-    "(tx_data in {0xC3, 0x5A}, data.i = 0); the same monitors are also evaluated as runtime oracle on closed-loop PHY traces with 8-bit random data",
+    "pin-level R obligations: explicit input alphabets (tx_data in {0xC3, 0x5A}, data.i = 0); rm_pins_m*: control inputs constant "
+    "(register-write traffic only from reset); rm_pins_ctl: term_select free in every cycle (register writes start, and their cause "
+    "is reverted, at every offset relative to tx_valid), other control inputs constant; the same monitors are also evaluated as runtime oracle on closed-loop PHY traces with 8-bit random data",
 ]
 TIE_IMPORTS = "From LunaModel Require Import UlpiTx UlpiTx_proofs.\n"
 
@@ -106,6 +107,18 @@ def translator_traces(target, rng, n):
         w = World(rng, p_rx=rng.choice([0.0, 0.02, 0.06]), p_tx=rng.choice([0.03, 0.1, 0.3]), ctrl=ctrl,
                   rx_kind="mixed")
         worlds.append(w); lens.append(rng.randint(60, 260))
+    # register-write traffic under the transmissions: every register-backed control input changes at random offsets
+    # relative to tx_valid, is often changed BACK 1..8 cycles later (while its write is still in START_WRITE / on the bus:
+    # the PHY answers commands after 0..5 cycles and interrupts them with DIR), and a transmission is requested 0..8
+    # cycles after the change / the revert
+    for k in range(n):
+        w = World(rng, p_rx=rng.choice([0.0, 0.02, 0.05]), p_tx=rng.choice([0.02, 0.08, 0.2]),
+                  p_ctrl=rng.choice([0.03, 0.08, 0.2]), p_revert=rng.choice([0.4, 0.8]), p_tx_after=rng.choice([0.5, 0.9]),
+                  nxt_delay=rng.choice([(0, 1, 2, 3), (2, 3, 5), (0, 0, 1)]), abort_cmd=rng.choice([0.0, 0.05, 0.2]),
+                  rx_kind="mixed", tx_len=(1, 2, 3, 7))
+        if k % 3 == 0:
+            w.ctrl_fields = ["op_mode", "term_select", "dp_pulldown"]
+        worlds.append(w); lens.append(rng.randint(120, 320))
     trs = closed_loop(target.build, worlds, lens)
     return trs
 
@@ -128,14 +141,15 @@ def pack_in(**kw):
     return v
 
 
-def alphabet(mode, extvbus):
+def alphabet(mode, extvbus, terms=(0,), datas=(0xC3, 0x5A)):
     words = []
     for nxt in (0, 1):
         for d in (0, 1):
             for v in (0, 1):
-                for b in (0xC3, 0x5A):
-                    words.append(pack_in(nxt=nxt, dir=d, tx_valid=v, tx_data=b, op_mode=mode,
-                                         use_external_vbus_indicator=extvbus))
+                for b in datas:
+                    for term in terms:
+                        words.append(pack_in(nxt=nxt, dir=d, tx_valid=v, tx_data=b, op_mode=mode, term_select=term,
+                                             use_external_vbus_indicator=extvbus))
     return "[" + "; ".join(str(x) for x in sorted(set(words))) + "]"
 
 
@@ -156,6 +170,12 @@ def obligations(targets, tier):
                     describe=f"UTMITranslator pins vs UTMI transmit port: pin-level contract bus_mon (PHY's view of DIR/NXT/DATA/STP) holds on "
                              f"every trace over nxt, dir, tx_valid in {{0,1}}, tx_data in {{0xC3,0x5A}}, op_mode={mode} constant, "
                              f"use_external_vbus_indicator={ext} (register write from reset: {'yes' if ext or mode else 'no'})"))
+            obs.append(tie.rmon(
+                "rm_pins_ctl", t, mon="bus_mon", m0="0", alpha_bits=0, alphabet=alphabet(0, 0, terms=(0, 1), datas=(0xC3,)), fuel=6000,
+                describe="UTMITranslator pins vs UTMI transmit port with register-write traffic: pin-level contract bus_mon on every trace over "
+                         "nxt, dir, tx_valid, term_select in {0,1} (term_select changes -- and changes back -- at any cycle start Function "
+                         "Control writes under / next to the transmissions; bus_idle comes from the real control translator): a byte is "
+                         "reported accepted only when the PHY takes it as part of a transmit, never while the PHY or a register write owns the bus"))
             obs.append(tie.cmon("cm_txpath", t, mon="txp_mon", m0="0",
                                 describe="module-level contract tx_ok on the transmit translator inside UTMITranslator + output mux "
                                          "(data.o/stp from the transmitter iff out_req, data.oe = ~dir)"))
@@ -194,11 +214,12 @@ LEVEL_TEXT = ("Machine-checked proof. (1) For every input history the FSM model 
               "(3) The netlist of the real ULPITransmitTranslator regenerated from /repo equals the model on all traces over all 2^13 input "
               "words (certified product reachability), giving C23_ulpitx_contract / C23_ulpitx_packets for the netlist. "
               "(4) At the pins of UTMITranslator (mux, bus_idle gating, data.oe = ~dir) the PHY-view contract bus_mon is proved for all traces "
-              "over an explicit input alphabet with constant control inputs (certified reachability of the regenerated translator netlist), "
+              "over explicit input alphabets -- constant control inputs, and term_select changing freely so that register writes overlap the "
+              "transmit requests at every offset (certified reachability of the regenerated translator netlist) -- "
               "and checked as a runtime oracle on closed-loop PHY traces with full 8-bit data.")
 LEVEL_NOTE = ("Trusted: Coq kernel + vm_compute, Amaranth elaboration, nir2coq.py/Netlist.v (validated each run against pysim). "
-              "The pin-level theorems (4) are per alphabet (tx_data in {0xC3,0x5A}, data.i = 0, control inputs constant); with changing "
-              "control inputs the register window can collide with a transmission -- see C24. PHY-aborted transmissions (DIR raised "
+              "The pin-level theorems (4) are per alphabet (tx_data in {0xC3,0x5A}, data.i = 0; one free control bit); all control bits change "
+              "(incl. change-and-revert during the write) only in the runtime-oracle traces. PHY-aborted transmissions (DIR raised "
               "between TXCMD acknowledgement and STP) are outside the property.")
 TECHNIQUE = ("Rocq proof: invariant between the FSM model and a ghost PHY state (cycle contract), simulation between PHY-side and "
              "UTMI-side packet decoders (packet reading), certified product reachability of the regenerated netlists (module: lock-step "
